@@ -474,12 +474,47 @@ pub fn gen_aml(r: &mut Rng, tier: &str, emit: &mut dyn FnMut(String)) {
         }
         emit(format!("- rt 1 reg 0 8 0 1 {}", k));
     }
+    // the 2^20 boundary for three representative constructors, in both tiers (1 MiB bodies)
+    if !thorough {
+        for k in (1usize << 20) - 14..(1usize << 20) - 4 {
+            let pad = hex(&vec![0xA5u8; k]);
+            for head in ["scope 41424344 1 buf", "method 2 1 41424344 1 buf", "buf"] {
+                emit(format!("- {} {}", head, pad));
+            }
+        }
+    }
     // resource templates: every descriptor kind, 0..n descriptors, total size across 63/64 and 255/256
     for _ in 0..(if thorough { 20000 } else { 1500 }) {
         let mut g = G { r, env: vec![] };
         let k = match g.r.below(6) { 0 => 0, 1 => 1, 2 => g.r.range(2, 4), 3 => g.r.range(5, 9), _ => g.r.range(10, 30) };
         let ds: Vec<String> = (0..k).map(|_| g.descriptor()).collect();
         emit(format!("- rt {} {}", k, ds.join(" ")).trim_end().to_string());
+    }
+    // templates of every payload size 2..=600 (and around the 16-bit BufferSize boundary): descriptor
+    // sizes 8 (io), 9 (irq), 12 (mem32), 15 (reg), 16/26/46 (word/dword/qword address space)
+    {
+        let sizes: [(usize, &str); 7] = [(8, "io 1 2 3 4"), (9, "irq 1 0 1 0 9"), (12, "mem32 1 4096 256"), (15, "reg 0 8 0 1 4096"),
+            (16, "asbus 16 0 255"), (26, "asio 32 16 31 0 0"), (46, "asmem 64 1 1 4096 8191 0 0")];
+        let compose = |mut rem: usize| -> Option<Vec<&str>> {
+            // greedy with backtracking over a tiny coin set
+            let mut out = Vec::new();
+            while rem >= 46 + 72 { out.push(sizes[6].1); rem -= 46; }
+            // dynamic programme for the remainder (< 118)
+            let mut best: Vec<Option<(usize, usize)>> = vec![None; rem + 1];
+            best[0] = Some((0, 0));
+            for v in 1..=rem { for (i, (sz, _)) in sizes.iter().enumerate() { if *sz <= v && best[v - sz].is_some() { best[v] = Some((i, v - sz)); break; } } }
+            let mut v = rem;
+            if best[v].is_none() { return None; }
+            while v > 0 { let (i, prev) = best[v].unwrap(); out.push(sizes[i].1); v = prev; }
+            Some(out)
+        };
+        let mut targets: Vec<usize> = (2..=600).collect();
+        targets.extend([4090, 4091, 4092, 4093, 4094, 4095, 4096, 4097, 65530, 65531, 65532, 65533, 65534, 65535, 65536, 65537, 65538]);
+        for n in targets {
+            if let Some(ds) = compose(n - 2) {
+                emit(format!("- rt {} {}", ds.len(), ds.join(" ")).trim_end().to_string());
+            }
+        }
     }
     // all flag combinations of the descriptors exhaustively
     for m in 0..16u32 { emit(format!("- rt 1 irq {} {} {} {} 33", m & 1, m >> 1 & 1, m >> 2 & 1, m >> 3 & 1)); }
